@@ -78,8 +78,13 @@ class Follower:
                 self.done.add(key)
                 lag = self.lag(bot._row_number, bot._place)
                 if lag is not None:
-                    s.push(t + lag, "internal", lambda tt, b=bell: s.human_strike(tt, b))
+                    s.push(t + lag, "internal", lambda tt, b=bell: self.strike(s, tt, b))
         s.push(t + self.poll, "internal", lambda tt: self.tick(s, tt))
+
+    def strike(self, s, t, bell):
+        # (a ringer who has been told to stop does not pull off the stroke they were about to ring)
+        if self.stop is None or t <= self.stop:
+            s.human_strike(t, bell)
 
 
 class WorldProp(Prop):
@@ -118,6 +123,8 @@ class WorldProp(Prop):
                         f"(of {len(io)}/{len(mo)})")
         if len(io) != len(mo):
             return f"number of observations: impl={len(io)} model={len(mo)}"
+        if "delay" in ir and "delay" in mr and ir["delay"] != mr["delay"]:
+            return f"accumulated hold-up: impl={b2f(ir['delay'])!r} model={b2f(mr['delay'])!r}"
         if mr.get("tape_left", 0) != 0:
             return f"model consumed fewer regressions than the implementation ({mr['tape_left']} left)"
         dev = b2f(mr.get("max_dev", 0))
